@@ -247,7 +247,7 @@ fn run_prog<C: Counter>(
     c: &C,
     buggy: bool,
     k_max: usize,
-    thorough: bool,
+    _thorough: bool,
     only: &Option<Value>,
     reset: &dyn Fn(),
 ) {
@@ -344,7 +344,8 @@ pub fn run(rep: &mut Report, thorough: bool, replay: Option<Value>) {
     rep.assume("the simulator's exhaustive search itself is complete (C37)");
     let k_max = if thorough { 4 } else { 3 };
     rep.bound("max_increments", k_max);
-    rep.bound("max_increments_buggy_variants_and_partitioned", k_max - 1);
+    rep.bound("max_increments_partitioned_counter", k_max - 1);
+    rep.bound("max_increments_buggy_variants", 2);
     rep.bound("keys", 2);
 
     let mut tally = Tally { per_prog: Default::default() };
